@@ -242,15 +242,29 @@ class MetadataManager:
                 # PHASE 3.5: Fencing - re-validate lock ownership immediately
                 # before the commit point. A holder whose lease was broken (e.g.
                 # after a long pause) must not flip the hint.
-                if not self.lock_provider.is_held():
-                    raise ConcurrentModificationException(
-                        "Lost distributed lock before commit point; retrying"
-                    )
+                try:
+                    if not self.lock_provider.is_held():
+                        raise ConcurrentModificationException(
+                            "Lost distributed lock before commit point; retrying"
+                        )
 
-                # PHASE 4: Atomically make new version visible.
-                # This is the commit point - after this, the new metadata is visible.
-                # If we crash before this, the new metadata file is orphaned but table is consistent.
-                self._write_hint_at_commit_point(metadata_file, hint_etag)
+                    # PHASE 4: Atomically make new version visible.
+                    # This is the commit point - after this, the new metadata is visible.
+                    # If we crash before this, the new metadata file is orphaned but table is consistent.
+                    self._write_hint_at_commit_point(metadata_file, hint_etag)
+                except AmbiguousCommitError:
+                    raise  # may be durable: the file must stay
+                except Exception:
+                    # Known NOT committed: do not leave an uncommitted version
+                    # behind - hint recovery picks the highest version on disk.
+                    try:
+                        self.storage.delete_file(metadata_path)
+                    except Exception as cleanup_error:
+                        logger.warning(
+                            f"Could not remove uncommitted metadata file {metadata_path}: "
+                            f"{cleanup_error}"
+                        )
+                    raise
 
                 # Success - update in-memory version
                 self.current_version = next_version
